@@ -21,7 +21,10 @@ structure RecOK (X : Dense ℝ) (req : List Nat) (thresh : ℝ) (seq : Bool) (re
   auto : req.getD rec.k 0 = 0 → Gen.rankCut realOps (Gen.eigsum rec.eig) thresh = some rec.rank
   given : req.getD rec.k 0 ≠ 0 → rec.rank = req.getD rec.k 0
   ortho : OrthoCols rec.factor (X.shape.getD rec.k 0) (min rec.rank (X.shape.getD rec.k 0))
-  nonseq : seq = false → tail rec.eig rec.rank = defect X rec.factor rec.k
+  eigOf : ∃ D V, EighOK rec.gram (X.shape.getD rec.k 0) D V ∧
+    rec.eig = (argsortDesc realOps D).map (fun i => D.getD i 0)
+  cur : ∃ Y : Dense ℝ, Y.WF ∧ rec.gram = gramMode Y rec.k ∧ tail rec.eig rec.rank = defect Y rec.factor rec.k ∧
+    (seq = false → Y = X)
 
 /-- Loop invariant of `for k in dimorder:` after the modes `done` have been processed. -/
 structure HInv (X : Dense ℝ) (req : List Nat) (thresh : ℝ) (seq : Bool) (done : List Nat) (st : HState ℝ) : Prop where
@@ -64,7 +67,7 @@ theorem HInv.step {eigh : Nat → Mat ℝ → List ℝ × Mat ℝ} (hE : EighCon
     | false => simpa using hnseq rfl
   have hne : ∀ k' ∈ done, k ≠ k' := fun k' hk' e => hnd (e ▸ hk')
   have hrec : RecOK X req thresh seq ⟨k, gramMode st.Y k, stepPi eigh st k, stepEig eigh st k, r, stepU eigh st k r⟩ := by
-    refine ⟨hk, stepEig_nonneg hE st k hkY, stepEig_sorted st k, by rw [stepEig_length hE, hn], ?_, ?_, ?_, ?_⟩
+    refine ⟨hk, stepEig_nonneg hE st k hkY, stepEig_sorted st k, by rw [stepEig_length hE, hn], ?_, ?_, ?_, ?_, ?_⟩
     · intro h0
       simp only at h0
       rw [hrk, h0] at hr
@@ -73,12 +76,12 @@ theorem HInv.step {eigh : Nat → Mat ℝ → List ℝ × Mat ℝ} (hE : EighCon
       simp only at h0
       rw [hrk] at hr
       exact chooseRank_given _ _ h0 hr
-    · simpa [hn] using hU
-    · intro hs
+    · rw [← hn]; exact hU
+    · exact ⟨stepD eigh st k, stepV eigh st k, by rw [← hn]; exact step_eigh hE st k, rfl⟩
+    · refine ⟨st.Y, hI.wf, rfl, step_tail hE st hI.wf k r hkY, ?_⟩
+      intro hs
       subst hs
-      have hYX : st.Y = X := by simpa using hI.yval
-      have := step_tail hE st hI.wf k r hkY
-      simpa [hYX] using this
+      simpa using hI.yval
   refine ⟨?_, ?_, ?_, ?_, ?_, ?_, ?_, ?_, ?_⟩
   · rw [hY']; cases seq
     · exact hI.wf
@@ -125,7 +128,8 @@ theorem HInv.step {eigh : Nat → Mat ℝ → List ℝ × Mat ℝ} (hE : EighCon
       have e2 : st'.factors.getD k [] = stepU eigh st k r := by
         rw [hF]; exact getD_set_self' _ _ _ (by rw [hI.lenF]; exact hk)
       rw [e1, ← hy]
-      simp [e2]
+      simp only [List.map_cons, List.map_nil, ttmFold_cons, ttmFold_nil]
+      rw [e2]
   · intro hs
     subst hs
     have hold := hI.energy rfl
@@ -162,75 +166,46 @@ theorem hosvd_loop {eigh : Nat → Mat ℝ → List ℝ × Mat ℝ} (hE : EighCo
 theorem hosvdRun_ok {eigh : Nat → Mat ℝ → List ℝ × Mat ℝ} {X : Dense ℝ} {tol : ℝ} {dimorder : Option (List Nat)}
     {seq : Bool} {ranks : Option (List Nat)} {T : Ttensor ℝ} {tr : List (ModeRec ℝ)}
     (h : hosvdRun realOps eigh X tol dimorder seq ranks = .ok (T, tr)) :
-    let d := X.shape.length
-    let req := (match ranks with | none => List.replicate d 0 | some r => r)
-    let order := (match dimorder with | none => List.range d | some o => o)
-    let thresh := Gen.eigsumthresh realOps tol (normSq X) (realOps.ofNat d)
-    req.length = d ∧ isPermOf order d = true ∧
-    ∃ st, order.foldlM (hosvdStep realOps eigh thresh seq) ⟨X, List.replicate d [], req, []⟩ = .ok st ∧
+    (reqRanks ranks X.shape.length).length = X.shape.length ∧
+    isPermOf (modeOrder dimorder X.shape.length) X.shape.length = true ∧
+    ∃ st, (modeOrder dimorder X.shape.length).foldlM
+        (hosvdStep realOps eigh (Gen.eigsumthresh realOps tol (normSq X) (realOps.ofNat X.shape.length)) seq)
+        ⟨X, List.replicate X.shape.length [], reqRanks ranks X.shape.length, []⟩ = .ok st ∧
       tr = st.trace ∧ T.factors = st.factors ∧
       (seq = true → T.core = st.Y) ∧ (seq = false → ttmAll st.Y st.factors true = .ok T.core) := by
-  intro d req order thresh
   unfold hosvdRun at h
   simp only at h
-  by_cases h1 : req.length = d
-  · by_cases h2 : isPermOf order d = true
-    · have h1' : ¬ ((match ranks with | none => List.replicate X.shape.length 0 | some r => r).length != X.shape.length) = true := by
-        simpa using h1
-      rw [if_neg h1'] at h
-      have h2' : ¬ (!isPermOf (match dimorder with | none => List.range X.shape.length | some o => o) X.shape.length) = true := by
-        simpa using h2
-      rw [if_neg h2'] at h
-      refine ⟨h1, h2, ?_⟩
-      cases hf : order.foldlM (hosvdStep realOps eigh thresh seq) ⟨X, List.replicate d [], req, []⟩ with
-      | error e => rw [hf] at h; cases h
-      | ok st =>
-        rw [hf] at h
-        simp only at h
-        refine ⟨st, rfl, ?_⟩
-        cases seq with
-        | true =>
-          simp only [if_true] at h
-          cases hm : mkTtensor st.Y st.factors with
-          | error e => rw [hm] at h; cases h
-          | ok T' =>
-            rw [hm] at h
-            cases h
-            unfold mkTtensor at hm
-            split at hm
-            · cases hm
-              exact ⟨rfl, rfl, fun _ => rfl, fun hc => by cases hc⟩
-            · cases hm
-        | false =>
-          simp only [Bool.false_eq_true, if_false] at h
-          cases hg : ttmAll st.Y st.factors true with
-          | error e => rw [hg] at h; cases h
-          | ok G =>
-            rw [hg] at h
-            simp only at h
-            cases hm : mkTtensor G st.factors with
-            | error e => rw [hm] at h; cases h
-            | ok T' =>
-              rw [hm] at h
-              cases h
-              unfold mkTtensor at hm
-              split at hm
-              · cases hm
-                exact ⟨rfl, rfl, fun hc => by cases hc, fun _ => rfl⟩
-              · cases hm
-    · exfalso
-      have h1' : ¬ ((match ranks with | none => List.replicate X.shape.length 0 | some r => r).length != X.shape.length) = true := by
-        simpa using h1
-      rw [if_neg h1'] at h
-      have h2' : (!isPermOf (match dimorder with | none => List.range X.shape.length | some o => o) X.shape.length) = true := by
-        simpa using h2
-      rw [if_pos h2'] at h
-      cases h
-  · exfalso
-    have h1' : ((match ranks with | none => List.replicate X.shape.length 0 | some r => r).length != X.shape.length) = true := by
-      simpa using h1
-    rw [if_pos h1'] at h
-    cases h
+  split at h
+  · cases h
+  rename_i h1
+  split at h
+  · cases h
+  rename_i h2
+  refine ⟨by simpa using h1, by simpa using h2, ?_⟩
+  split at h
+  · cases h
+  rename_i st hf
+  refine ⟨st, hf, ?_⟩
+  split at h
+  · cases h
+  rename_i G hG
+  split at h
+  · cases h
+  rename_i T' hm
+  cases h
+  unfold mkTtensor at hm
+  split at hm
+  · cases hm
+    refine ⟨rfl, rfl, ?_, ?_⟩
+    · intro hs
+      subst hs
+      simp only [if_true] at hG
+      cases hG
+      rfl
+    · intro hs
+      subst hs
+      simpa using hG
+  · cases hm
 
 end Tk
 end Pyttb
